@@ -185,3 +185,19 @@ impl<R> Reader<R> {
         &&& self.state.last_error_offset <= self.bufpos()
     }
 }
+
+/// number of entries of `t` equal to `n` (how many open elements opened during a skip carry the skipped name)
+pub open spec fn count_name(t: Seq<Seq<u8>>, n: Seq<u8>) -> int decreases t.len() {
+    if t.len() == 0 { 0 } else { count_name(t.drop_last(), n) + (if t.last() == n { 1int } else { 0int }) }
+}
+pub proof fn lemma_count_push(t: Seq<Seq<u8>>, x: Seq<u8>, n: Seq<u8>)
+    ensures count_name(t.push(x), n) == count_name(t, n) + (if x == n { 1int } else { 0int }), count_name(t, n) >= 0
+    decreases t.len()
+{
+    assert(t.push(x).drop_last() =~= t);
+    if t.len() > 0 { lemma_count_push(t.drop_last(), t.last(), n); assert(t.drop_last().push(t.last()) =~= t); }
+}
+/// skipping the innermost open element: the precondition under which the skip provably ends at ITS end tag
+spec fn skip_domain(st: ReaderState, end: Seq<u8>) -> bool {
+    st.config.check_end_names && st.stack().len() > 0 && st.stack().last() == end
+}
